@@ -382,10 +382,17 @@ func c04Run(s *vfStation, c c04Case) (res c04Res) {
 				}
 			}
 		}
-		// wait for the station's server handshake and for the registration to be marked used
+		// The client stays until the station has answered with its server handshake, the registration is
+		// marked used and the relay has made its first call on the connection.  (No data follows a
+		// hand-built flight, so nothing else makes the client outlive the hand-over; if it closes
+		// earlier, halfPipe's SetDeadline fails on the closed net.Pipe and the relay never touches the
+		// connection - the order "marked used before the relay starts" would then have nothing to compare.)
 		_, _, smin := obfs4.VerifPadRange()
 		for lim := time.Now().Add(c04Wait()); time.Now().Before(lim); time.Sleep(3 * time.Millisecond) {
-			if int(atomic.LoadInt32(&n32)) >= smin && s.rm.VerifRegStatus(reg) == 1 && s.updatesOf(reg) >= 1 {
+			sc.mu.Lock()
+			started := sc.relayStart > 0
+			sc.mu.Unlock()
+			if started && int(atomic.LoadInt32(&n32)) >= smin && s.rm.VerifRegStatus(reg) == 1 && s.updatesOf(reg) >= 1 {
 				break
 			}
 		}
